@@ -618,6 +618,22 @@ def assume_delays_cover_steps(ctx, w):
             for s in c.steps[1:]:
                 m = s if bool(s > m) else m
             need = m if need is None else need + m
+    if w["topo"].get("covers"):
+        # rings sharing adapters: per cycle, the delays on it (indices in creation order) cover its components' steps
+        def mx(c):
+            m = c.steps[0]
+            for s_ in c.steps[1:]:
+                m = s_ if bool(s_ > m) else m
+            return m
+        for didx, names in w["topo"]["covers"]:
+            lhs = None
+            for i in didx:
+                lhs = w["delays"][i] if lhs is None else lhs + w["delays"][i]
+            rhs = None
+            for n_ in names:
+                rhs = mx(w["comps"][n_]) if rhs is None else rhs + mx(w["comps"][n_])
+            ctx.assume(lhs >= rhs)
+        return
     ctx.assume(tot >= need)
 
 
